@@ -101,6 +101,11 @@ pub enum Op {
     WriteRead(bool),
     FormatParse(bool),
     CloneReplace,
+    /// `Clone::clone_from` between the subject and another vector of the SAME type built from
+    /// the operand's bits and provenance (its type field is ignored): `into` = the other vector
+    /// is the destination and then replaces the subject (value unchanged, storage reused from a
+    /// vector with different old contents); otherwise the subject takes the other's value
+    CloneFrom { into: bool, other: Operand },
 }
 
 #[derive(Clone, Debug, Hash, Serialize, Deserialize)]
@@ -164,6 +169,7 @@ pub fn op_name_of(op: &Op) -> &'static str {
         Op::WriteRead(_) => "write-read",
         Op::FormatParse(_) => "format-parse",
         Op::CloneReplace => "clone",
+        Op::CloneFrom { .. } => "clone_from",
     }
 }
 
@@ -415,6 +421,10 @@ pub fn step(z: &mut Z, m: &mut Bits, op: &Op, lim: &Limits) -> Result<StepInfo, 
             m.0.iter_mut().for_each(|b| *b = !*b);
             info.risk = n % w != 0;
         }
+        Op::Bin { op: bop, .. } if ty == TID_HUGE && n > HUGE_DIV_MAX && matches!(bop, BinOp::Div | BinOp::Rem) => {
+            // cost control: a long division on the 70 400-bit type takes half a second
+            info.skipped = true;
+        }
         Op::Bin { op: bop, form, rhs } => {
             let rb = build_rhs_checked(rhs)?;
             let rbits = rhs.bits();
@@ -511,6 +521,29 @@ pub fn step(z: &mut Z, m: &mut Bits, op: &Op, lim: &Limits) -> Result<StepInfo, 
             let nz = z.clone();
             *z = nz;
         }
+        Op::CloneFrom { into, other } => {
+            let cap = fixed_cap(ty).unwrap_or(usize::MAX);
+            let ob = other.bits.zext(other.bits.len().min(cap));
+            let nz = catch(|| {
+                tid_match!(ty, T => {
+                    let mut o: T = build::<T>(&ob, &other.prov);
+                    let mut cur = T::from_z(z.clone()).expect("subject has its own type");
+                    if *into {
+                        o.clone_from(&cur);
+                        o.wrap()
+                    } else {
+                        cur.clone_from(&o);
+                        cur.wrap()
+                    }
+                })
+            })
+            .map_err(pan)?;
+            *z = nz;
+            if !*into {
+                *m = ob;
+            }
+            info.risk = true;
+        }
     }
     let after = m.len();
     info.changed = *m != before;
@@ -518,7 +551,7 @@ pub fn step(z: &mut Z, m: &mut Bits, op: &Op, lim: &Limits) -> Result<StepInfo, 
     info.shrank = after < n;
     info.grew_cross = after > n && crosses(n, after, w, is_bv);
     info.shrank_cross = after < n && crosses(n, after, w, is_bv);
-    info.mutating = info.changed || matches!(op, Op::Bin { .. } | Op::Shift { .. } | Op::ShiftRel { .. } | Op::Not(_) | Op::Rot { .. } | Op::Append(_) | Op::Prepend(_) | Op::Insert(..) | Op::Extend(..) | Op::Grow(..) | Op::ResizeTo(..) | Op::Push(_) | Op::Set(..));
+    info.mutating = info.changed || matches!(op, Op::Bin { .. } | Op::Shift { .. } | Op::ShiftRel { .. } | Op::Not(_) | Op::Rot { .. } | Op::Append(_) | Op::Prepend(_) | Op::Insert(..) | Op::Extend(..) | Op::Grow(..) | Op::ResizeTo(..) | Op::Push(_) | Op::Set(..) | Op::CloneFrom { .. });
     Ok(info)
 }
 
